@@ -14,9 +14,12 @@ CLAIMED = {
             'Static, all-paths: whole-program exception-escape analysis (no exception type escapes main / Interpret::interp), '
             'discarded-result, single status writer, literal-format and exit-caller rules over the type-checked AST of all built units; front-end crash clauses: local vectors '
             'read with a literal index / front / back are provably long enough on every path (size lower bounds, assert not counted), options that decide what is allocated or '
-            'which class is built at solver construction are frozen afterwards, pipe mode reports input ending inside a command, parser text is tested for null before it is echoed. '
+            'which class is built at solver construction are frozen afterwards, pipe mode reports input ending inside a command, parser text is tested for null before it is echoed; '
+            'printf-style calls match their arguments; AST shape: from the bison grammar (read on every run) the node types that can come without children and the child types of '
+            'every node type, and in the interpreter every dereference of the children of a node that can be such a type sits under a test of the pointer; the arity gate '
+            '(PtStore::lookupSymbol) indexes its argument list only under a size test; the signature check of defined functions throws exactly on a count or sort mismatch (abstract evaluation). '
             'Decides these structural clauses of the property, not memory safety in general or promptness.',
-            'static analysis: interprocedural exception-escape fixpoint + AST call-site rules + path-sensitive size-lower-bound walk (LibTooling facts)',
+            'static analysis: interprocedural exception-escape fixpoint + AST call-site rules + path-sensitive size-lower-bound walk + grammar-derived AST-shape typing + abstract evaluation (LibTooling facts)',
             'library throw table; allocation failure excluded'),
     'C04': ('other',
             'Static, all-paths: scope push/pop pairing of every stacked member (MainSolver, Preprocessor), lockstep typestate between the '
@@ -28,7 +31,7 @@ CLAIMED = {
             'Static: container-protocol rules on the scoped registries (every created key can be erased when readers test presence), insertion '
             'registers all maps and the scope log on every successful path and writes an undo entry only for a change that was made (the recording method is found by what it '
             'does, not by name), push/popScope guarded by the same global-declarations predicate, '
-            'scope logs paired with the assertion stack, single writer of the maps. Decides these clauses, not which container each printer reads.',
+            'scope logs paired with the assertion stack (the scope stack moves on every push and pop unless the deciding option is frozen), single writer of the maps. Decides these clauses, not which container each printer reads.',
             'static analysis: container-protocol and pairing rules over class facts + path-sensitive MUST-CALL walk', ''),
     'C19': ('other',
             'Static, all-paths typestate "commit after validate" over all 22 command arms of the interpreter, interprocedural through the front-end '
@@ -121,13 +124,16 @@ CLAIMED = {
     'C03': ('other',
             'Static: model extension to eliminated variables on every sat path of the simplifying solver and single-writer of the reconstruction stack; frozen-variable '
             'guards; every engine copies the final assignment into the persistent model vector and the Boolean model is read only from it; the theory model is computed '
-            'before clearSearch() under the same predicate that guards get-model and is forwarded to every scheduled solver; model queries throw outside the sat state. '
+            'before clearSearch() under the same predicate that guards get-model and is forwarded to every scheduled solver; get-model additionally requires the record that the '
+            'model was computed by the check that produced the state (the option can be switched on afterwards); model queries throw outside the sat state. '
             'Whether the computed values are right is not decided.',
             'static analysis: ordering (MUST-PRECEDE), who-writes/who-reads and guard rules over the type-checked AST', ''),
     'C16': ('other',
             'Static, narrow: every GMP string conversion of a numeric literal uses base 10 explicitly (literal, or a base parameter all of whose call sites pass 10); '
             'ArithLogic::mkConst builds a number only from text validated by isIntString (rejecting branch) or produced by stringToRational, which throws on malformed text; '
-            'every pass of the literal scanner starts from constant scanner state and counters; numbers are printed through exact GMP conversion. The digit-counting '
+            'every pass of the literal scanner starts from constant scanner state and counters; numbers are printed through exact GMP conversion; the recogniser isRealString, '
+            'evaluated abstractly on every string over {0,5,.,/,-} up to length 5 (6 in the thorough tier), accepts exactly the decimal / fraction literals with a non-zero denominator and '
+            'the real branch of mkConst converts only behind it. The digit-counting '
             'arithmetic inside the scanner passes and the printed values themselves are value-level and not decided.',
             'static analysis: forbidden-argument rule with call-site resolution, validation-dominance rule, pass-initialisation (reaching-constant) rule on the scanner', ''),
     'C17': ('other',
